@@ -1,13 +1,14 @@
 #!/usr/bin/env python3
 """Confirm a seeded change in its scratch worktree: demo fails with the patch, passes without,
 and the touched crate's own tests still pass with the patch.
-  tools/confirm_seed.py <ID> <crate> <demo test file (in seeded/<ID>/demo)> [extra crates to test...]
+  [SEED_ROOT=/tmp/seed2 SEED_SUFFIX=b] tools/confirm_seed.py <ID> <crate> <demo test file (in seeded/<ID>/demo)> [extra crates to test...]
 Appends the outcome to /verif/seeded/<ID>/meta.json under "confirmed_by_main"."""
 import json, os, shutil, subprocess, sys, time
 ID, crate, demo = sys.argv[1], sys.argv[2], sys.argv[3]
 extra = sys.argv[4:]
-wt = "/tmp/seed/%s" % ID
-sd = "/verif/seeded/%s" % ID
+ROOT = os.environ.get("SEED_ROOT", "/tmp/seed")
+wt = "%s/%s" % (ROOT, ID)
+sd = "/verif/seeded/%s%s" % (ID, os.environ.get("SEED_SUFFIX", ""))
 env = dict(os.environ, CARGO_NET_OFFLINE="true", CARGO_TARGET_DIR="/tmp/seed/target-confirm")
 cdir = {"grin_chain": "chain", "grin_core": "core", "grin_store": "store", "grin_pool": "pool", "grin_p2p": "p2p",
         "grin_keychain": "keychain", "grin_util": "util", "grin_servers": "servers", "grin_api": "api"}[crate]
